@@ -313,6 +313,11 @@ def oraclePlatformDist (platform : Bytes) : Option Dist :=
   | none => none
   | some var => (lookupFirst JoinReleases.oracle.dists var).map (·.eval [])
 
+/-- oracle/parser.go `protoVulns`: one prototype advisory per known
+    `<platform>` of the definition, in document order, each with its own
+    Distribution (a definition without a known platform yields nothing). -/
+def oracleDefinitionDists (platforms : List Bytes) : List Dist := platforms.filterMap oraclePlatformDist
+
 /-- suse/factory.go: `suse.linux.enterprise.server.NN.xml.gz` with NN in [1-9][1-9]. -/
 def suseELVersion (href : Bytes) : Option Bytes :=
   let pre : Bytes := [115, 117, 115, 101, 46, 108, 105, 110, 117, 120, 46, 101, 110, 116, 101, 114, 112, 114, 105, 115, 101, 46, 115, 101, 114, 118, 101, 114, 46]
